@@ -20,6 +20,7 @@ for m in specs:
     scratch = tempfile.mkdtemp(prefix='kyupy-mut-', dir='/var/tmp')
     try:
         shutil.copytree('/repo/src', os.path.join(scratch, 'src'))
+        os.symlink('/repo/tests', os.path.join(scratch, 'tests'))      # the corpus shards read the shipped netlists
         path = os.path.join(scratch, 'src', 'kyupy', m['file'])
         src = open(path).read()
         cnt = src.count(m['old'])
